@@ -76,6 +76,7 @@ class CallGraph:
                 self._name_index.setdefault(f.name, []).append(f)
         self.n_calls = self.n_resolved = self.n_external = self.n_imprecise = self.n_unresolved = 0
         self.abstract = self._abstract_classes()
+        self.log_hooks = self._logging_hooks()
         for f in repo.funcs.values():
             self._scan(f)
         # module-level code (decorators etc.) is not a caller we need
@@ -205,6 +206,38 @@ class CallGraph:
         return None
 
     # -- scanning -------------------------------------------------------------------
+
+    def _logging_hooks(self) -> list[FuncInfo]:
+        """Repository code that the logging module runs synchronously inside every logging call, *outside* the handlers' own
+        error fence (Handler.emit catches; record creation and filters do not): functions installed with
+        logging.setLogRecordFactory(), makeRecord() of classes installed with logging.setLoggerClass(), filter() of the
+        repository's logging.Filter subclasses. An exception they raise leaves the `_LOGGER.warning(...)` call itself."""
+        hooks: list[FuncInfo] = []
+        for f in self.repo.funcs.values():
+            for n in own_nodes(f.node):
+                if not (isinstance(n, ast.Call) and isinstance(n.func, ast.Attribute) and n.args):
+                    continue
+                if n.func.attr == "setLogRecordFactory" and isinstance(n.args[0], ast.Name):
+                    g: FuncInfo | None = f
+                    while g is not None:
+                        if n.args[0].id in g.nested:
+                            hooks.append(g.nested[n.args[0].id])
+                            break
+                        g = g.parent
+                elif n.func.attr == "setLoggerClass" and isinstance(n.args[0], ast.Name):
+                    tgt = self.repo.resolve(f.module, n.args[0].id)
+                    ci = self.repo.classes.get(tgt) if tgt else None
+                    if ci is not None and "makeRecord" in ci.methods:
+                        hooks.append(ci.methods["makeRecord"])
+        for ci in self.repo.classes.values():
+            if any(str(b).endswith("logging.Filter") for k in ci.mro for b in k.ext_bases):
+                if "filter" in ci.methods:
+                    hooks.append(ci.methods["filter"])
+        out: list[FuncInfo] = []
+        for h in hooks:
+            if h not in out:
+                out.append(h)
+        return out
 
     def _add(self, site: CallSite) -> None:
         self.sites.setdefault(site.caller, []).append(site)
@@ -559,6 +592,10 @@ class CallGraph:
                 for w in self.decorator_wrappers(c):
                     if w not in callees and w is not f:
                         callees.append(w)
+        if any(e in LOG_EMITTERS for e in ext):
+            for h in self.log_hooks:
+                if h not in callees and h is not f and (f.parent is None or f.parent is not h):
+                    callees.append(h)
         site = CallSite(node, f, callees, ext, kind, imprecise, unresolved)
         # is a coroutine call awaited here?
         if any(c.is_async for c in callees):
@@ -588,6 +625,9 @@ class CallGraph:
         if id(tgt) in self.site_of:
             return
         self._add(CallSite(tgt, f, callees, ext, "deferred", imprecise, unresolved, awaited=False))
+
+
+LOG_EMITTERS = {f"logging.Logger.{m}" for m in ("debug", "info", "warning", "warn", "error", "exception", "critical", "log")} | {f"logging.{m}" for m in ("debug", "info", "warning", "warn", "error", "exception", "critical", "log")}
 
 
 def _names_of(*types: type) -> set[str]:
